@@ -293,6 +293,53 @@ Section BatchLemmas.
     - rewrite H. mring.
   Qed.
 
+  (* two members whose residuals are multiples a.R and b.R of one point, all other members valid: the batch
+     accepts exactly when alpha_i a + alpha_j b = 0 *)
+  Theorem scaled_pair_accepted_iff (Gs Hs : list MO) :
+    forall l alphas i j (R : MO) (a b : K) vi vj,
+      i <> j -> nth_error l i = Some vi -> nth_error l j = Some vj -> length alphas = length l -> R <> m0 ->
+      mega_of Gs Hs vi = a *s R -> mega_of Gs Hs vj = b *s R ->
+      (forall k vp, nth_error l k = Some vp -> k <> i -> k <> j -> mega_of Gs Hs vp = m0) ->
+      (weighted_sum Gs Hs l alphas = m0 <-> nth i alphas f0 * a + nth j alphas f0 * b = f0).
+  Proof.
+    intros l alphas i j R a b vi vj Hij Hi Hj Hal HR Mi Mj Mo.
+    assert (Li : (i < length alphas)%nat) by (rewrite Hal; apply nth_error_Some; congruence).
+    assert (Lj : (j < length alphas)%nat) by (rewrite Hal; apply nth_error_Some; congruence).
+    rewrite (weighted_sum_diff Gs Hs l alphas i f0 vi Hi Hal).
+    rewrite (weighted_sum_diff Gs Hs l (set_weight i f0 alphas) j f0 vj Hj) by (rewrite set_weight_length; exact Hal).
+    rewrite weighted_sum_vanishes.
+    2:{ intros k vp Hn. destruct (Nat.eq_dec k i) as [->|Hki]; [|destruct (Nat.eq_dec k j) as [->|Hkj]].
+        - left. rewrite set_weight_nth. destruct (Nat.eqb_spec i j); [contradiction|]. rewrite set_weight_nth, Nat.eqb_refl.
+          destruct (Nat.ltb i (length alphas)); reflexivity.
+        - left. rewrite set_weight_nth, Nat.eqb_refl. destruct (Nat.ltb _ _); reflexivity.
+        - right. apply (Mo k vp Hn Hki Hkj). }
+    rewrite set_weight_nth. destruct (Nat.eqb_spec j i) as [E|_]; [congruence|].
+    rewrite Mi, Mj. split; intros H.
+    - assert (E : (nth i alphas f0 * a + nth j alphas f0 * b) *s R = m0).
+      { rewrite <- H. mring. }
+      destruct (smul_cancel _ _ E) as [E'|E']; [exact E' | contradiction].
+    - assert (E : m0 +m (nth j alphas f0 - f0) *s (b *s R) +m (nth i alphas f0 - f0) *s (a *s R)
+                  = (nth i alphas f0 * a + nth j alphas f0 * b) *s R) by mring.
+      rewrite E, H. apply smul_0_l.
+  Qed.
+
+  (* why the weights must be independent draws: weights of the form rho * c_k with publicly computable c_k
+     (one secret factor shared by the whole batch) admit, for EVERY rho, an accepted batch with two invalid members *)
+  Corollary shared_factor_weights_forgeable (Gs Hs : list MO) :
+    forall l (cs : list K) (rho d : K) i j (R : MO) vi vj,
+      i <> j -> nth_error l i = Some vi -> nth_error l j = Some vj -> length cs = length l -> R <> m0 ->
+      mega_of Gs Hs vi = (nth j cs f0 * d) *s R -> mega_of Gs Hs vj = (- (nth i cs f0 * d)) *s R ->
+      (forall k vp, nth_error l k = Some vp -> k <> i -> k <> j -> mega_of Gs Hs vp = m0) ->
+      weighted_sum Gs Hs l (map (fun c => rho * c) cs) = m0.
+  Proof.
+    intros l cs rho d i j R vi vj Hij Hi Hj Hcs HR Mi Mj Mo.
+    apply (scaled_pair_accepted_iff Gs Hs l (map (fun c => rho * c) cs) i j R (nth j cs f0 * d) (- (nth i cs f0 * d)) vi vj Hij Hi Hj); try assumption.
+    - rewrite map_length. exact Hcs.
+    - assert (Hn : forall k, nth k (map (fun c => rho * c) cs) f0 = rho * nth k cs f0).
+      { intros k. rewrite <- (map_nth (fun c => rho * c) cs f0 k). f_equal. ring. }
+      rewrite !Hn. ring.
+  Qed.
+
   (* errors: the batch reports the first instance's error, exactly when that instance alone reports it *)
   Theorem batch_first_error cap : forall insts,
     match batch_collect RO cap insts with
